@@ -264,9 +264,37 @@ theorem genFunc_ok {fb f ft c} (h : genFunc fb f = .ok (ft, c)) :
         cases h4 : transCode fb ft'.params.length ents f.code with
         | error e => simp [h1, h2, h3, h4] at h
         | ok body =>
-          simp only [h1, h2, h3, h4, Except.ok.injEq, Prod.mk.injEq] at h
-          obtain ⟨rfl, rfl⟩ := h
-          exact ⟨ents, vts, body, rfl, rfl, h3, h4, rfl⟩
+          simp only [h1, h2, h3, h4] at h
+          by_cases hr : retOK ft'.results ents f.code = true
+          · rw [if_pos hr] at h
+            simp only [Except.ok.injEq, Prod.mk.injEq] at h
+            obtain ⟨rfl, rfl⟩ := h
+            exact ⟨ents, vts, body, rfl, rfl, h3, h4, rfl⟩
+          · rw [if_neg hr] at h; cases h
+
+/-- A generated function passed the return checks of the (repaired) generator. -/
+theorem genFunc_retOK {fb f ft c} (h : genFunc fb f = .ok (ft, c)) :
+    ∃ ents, collectEntries f.params f.code [] = .ok ents ∧ retOK ft.results ents f.code = true := by
+  unfold genFunc at h
+  cases h1 : convertFuncType f with
+  | error e => simp [h1] at h
+  | ok ft' =>
+    cases h2 : collectEntries f.params f.code [] with
+    | error e => simp [h1, h2] at h
+    | ok ents =>
+      cases h3 : convertVTs (ents.map (·.2)) with
+      | error e => simp [h1, h2, h3] at h
+      | ok vts =>
+        cases h4 : transCode fb ft'.params.length ents f.code with
+        | error e => simp [h1, h2, h3, h4] at h
+        | ok body =>
+          simp only [h1, h2, h3, h4] at h
+          by_cases hr : retOK ft'.results ents f.code = true
+          · rw [if_pos hr] at h
+            simp only [Except.ok.injEq, Prod.mk.injEq] at h
+            obtain ⟨rfl, rfl⟩ := h
+            exact ⟨ents, rfl, hr⟩
+          · rw [if_neg hr] at h; cases h
 
 theorem genFunc_wf {fb f ft c} (hfb : FbOk fb) (h : genFunc fb f = .ok (ft, c)) :
     ∀ w ∈ c.body, instrWF w = true := by
